@@ -4,6 +4,7 @@ from . import ops_dp
 from . import ops_branch
 from . import ops_ls
 from . import ops_block
+from . import ops_c09
 
 TABLE = Table()
 ops_dp.build_arm(TABLE)
@@ -12,6 +13,7 @@ ops_branch.build(TABLE)
 ops_ls.build_arm(TABLE)
 ops_ls.build_thumb(TABLE)
 ops_block.build(TABLE)
+ops_c09.build(TABLE)
 
 
 def rows_for(cls_name):
